@@ -163,6 +163,16 @@ def validation_set(rng, est, X, style):
     y[:8] = np.where(np.arange(8) < cut, 1, -1)
     perm = rng.permutation(m)
     return P[perm], y[perm]
+  elif style == 'allzero':
+    # every pair is a point with itself (or differs from it only by exact
+    # zeros): all learned distances are 0, accepting everything or nothing
+    # are the only choices, and which one is right depends on the labels
+    m = int(rng.randint(2, 9))
+    base = X[rng.randint(0, n, size=m)]
+    P = np.stack([base, base], axis=1)
+    npos = int(rng.randint(1, m))
+    y = np.r_[np.ones(npos, dtype=int), -np.ones(m - npos, dtype=int)]
+    return P, y[rng.permutation(m)]
   elif style == 'lattice':
     L = est.components_
     if L.shape[0] == L.shape[1] and np.linalg.cond(L) < 1e8:
@@ -191,7 +201,7 @@ def run_case(spec, j):
   api.set_judge(j)
   rng = rng_for('c16run', spec['vseed'])
   det0 = {'est': name}
-  styles = ['pool', 'dup', 'zero', 'lattice', 'random', 'ulp']
+  styles = ['pool', 'dup', 'zero', 'lattice', 'random', 'ulp', 'allzero']
   for s in range(spec['nsets']):
     style = styles[s % len(styles)]
     P, y = validation_set(rng, est, X, style)
